@@ -17,7 +17,7 @@ ALLOWED = [
     ("handler", None, "the withdraw handler itself"),
 ]
 QUERY_ROLES = ("query_pools", "query_pool", "q_token_info", "q_token_balance", "q_balance", "info_to_normal")
-QUERY_STD = re.compile(r"^cosmwasm_std::(\S*::)?QuerierWrapper::query$")
+QUERY_STD = re.compile(r"^cosmwasm_std::(\S*::)?QuerierWrapper::(query|query_wasm_smart|query_balance|query_all_balances)$")
 ARITH = re.compile(r"(bignumber::|<cosmwasm_std::(\S*::)?(Uint128|Uint256|Uint64|Decimal|Decimal256) as (core|std)::ops::(Add|Sub|Mul|Div|Rem|Shl|Shr|AddAssign|SubAssign|MulAssign|DivAssign)"
                    r"|cosmwasm_std::(\S*::)?(Decimal|Uint128|Uint256|Decimal256)::(from_ratio|multiply_ratio|pow|sqrt|inv|checked_\w+|from_atomics)\b"
                    r"|impl (core|std)::ops::(Mul|Div)<cosmwasm_std::\S*> for cosmwasm_std::|integer_sqrt)")
@@ -43,6 +43,8 @@ def abort_sites(P, fn, blocks=None):
             continue
         if p and re.search(r"result::Result(::<[^>]*>)?::(map_err|map)$", g):
             continue        # re-labels an existing error / maps the success value: the failing call itself is classified
+        if p and re.search(r"iter::(traits::iterator::)?Iterator::collect$", g):
+            continue        # collect::<Result<_, _>>() only forwards the first error of the mapped closure, which is on the path itself
         pg = common.propagated(P, fn, b)
         if pg is not None:
             out.append((b, "propagated", g))
@@ -112,6 +114,12 @@ def _run(ctx):
                     seen.add(g.path)
                     fns.append((g, None, "helper"))
                     todo.append(g)
+    # closures of the path functions run on the path too (e.g. the closure mapping refunds to payouts)
+    for f_, blocks_, role_ in list(fns):
+        for g_ in P.fns.values():
+            if g_.kind == "closure" and g_.parent == f_.path and g_.body is not None and blocks_ is None and g_.path not in seen:
+                seen.add(g_.path)
+                fns.append((g_, None, role_ + " closure"))
     helper_paths = {f.path for f, _, role in fns}
     for f, blocks, role in fns:
         for (b, kind, detail) in abort_sites(P, f, blocks):
